@@ -22,8 +22,9 @@ import PersimVerif.Model.PLBase
     * `np.interp(x, xp, fp)` for increasing `xp`: `npInterp` below (clamped linear interpolation);
     * `TransformerMixin.fit_transform(X) = fit(X).transform(X)`.
 
-  What the code rejects, the model rejects (`Err`); where the code stores the placeholder
-  `np.array(["empty"])` the model returns `Values.empty`.
+  What the code rejects, the model rejects (`Err`).  A grid on which no bar is visible (every `W[i]`
+  stays empty, `K = 0`) gives ONE ZERO ROW `np.zeros((1, num_steps))`, `max_depth = 1` (/repo fix
+  357d745; before it the code stored the string placeholder `np.array(["empty"])`).
 -/
 namespace PersimVerif.Approx
 open PersimVerif.PL
@@ -38,17 +39,16 @@ inductive Err where
   | noDepths        -- `vectorize`: `critical_pairs[0]` on an empty landscape: IndexError
   | startAfterStop  -- `vectorize` → constructor with values: "start must be less than or equal to stop": ValueError
   | notImplemented  -- `death_vector` with `hom_deg != 0`: NotImplementedError
+  | keyError        -- only in the model of the code before fix b209c93 (`fitTransformOld`): `dict_grid[nan]`
   deriving DecidableEq, Repr
 
-/-- the `values` attribute: a depth × grid matrix, or the code's placeholder `np.array(["empty"])` -/
+/-- the `values` attribute: a depth × grid matrix (always at least one row, see `valuesOfW`) -/
 inductive Values (α : Type) where
-  | empty
   | mat (rows : List (List α))
   deriving Repr, DecidableEq
 
-/-- rows of the values array, the placeholder read as "no rows" -/
+/-- rows of the values array -/
 def Values.rows {α : Type} : Values α → List (List α)
-  | .empty => []
   | .mat r => r
 
 /-- entry (depth `k`, node `i`), depths beyond those returned counting as zero -/
@@ -134,12 +134,12 @@ def addBar (step : α) (grid : List α) (W : List (List α)) (p : α × α) : Li
 def rampsW (bars : List (α × α)) (start stop : α) (n : Nat) : List (List α) :=
   bars.foldl (addBar (stepOf start stop n) (linspace start stop n)) (List.replicate n [])
 
-/-- sort every `W[i]` descending, `K = max len`, `L[k][i] = W[i][k]` on a zero matrix; the
-    placeholder when `L.size == 0` -/
+/-- sort every `W[i]` descending, `K = max len`, `L[k][i] = W[i][k]` on a zero matrix; when
+    `L.size == 0` (no bar visible, `K = 0`): `L = np.zeros((1, self.num_steps))`, one zero row -/
 def valuesOfW (W : List (List α)) : Values α :=
   let Ws := W.map sortDesc
   let K := (Ws.map List.length).foldl max 0
-  if K = 0 then .empty
+  if K = 0 then .mat [List.replicate W.length 0]
   else .mat ((List.range K).map fun k => Ws.map fun w => w.getD k 0)
 
 /-- `compute_landscape` for `num_steps = n ≥ 1` -/
@@ -249,39 +249,55 @@ structure Landscaper (α : Type) where
 inductive Out (α : Type) where
   | values (v : Values α)
   | flat (xs : List α)
-  deriving Repr
+  deriving Repr, DecidableEq
 
 def embed (d : List (α × α)) : Dgm α := d.map fun p => (some p.1, some p.2)
 
-/-- `fit`: learn `start`/`stop` from `X[hom_deg]` unless the user fixed them -/
-def Landscaper.fit (self : Landscaper α) (X : List (List (α × α))) : Except Err (Landscaper α) :=
+/-- `fit`: learn `start`/`stop` from the points of `X[hom_deg]` with finite coordinates
+    (`_dgm = [pt for pt in X[self.hom_deg] if np.all(np.isfinite(pt))]`, /repo fix b209c93) unless the
+    user fixed them -/
+def Landscaper.fit (self : Landscaper α) (X : List (Dgm α)) : Except Err (Landscaper α) :=
   match X[self.homDeg]? with
   | none => .error .homDeg
   | some d =>
-    match resolveStart self.start d with
+    match resolveStart self.start (finiteBars d) with
     | none => .error .emptyDiagram
     | some s =>
-      match resolveStop self.stop d with
+      match resolveStop self.stop (finiteBars d) with
       | none => .error .emptyDiagram
       | some e => .ok { self with start := some s, stop := some e }
 
-/-- `transform`: build the approximate landscape, `.flatten()` (C order) on request; flattening the
-    placeholder array leaves it as it is -/
-def Landscaper.transform (self : Landscaper α) (X : List (List (α × α))) : Except Err (Out α) :=
-  match persLandscapeApprox (X.map embed) self.homDeg self.start self.stop self.numSteps with
+/-- `transform`: build the approximate landscape, `.flatten()` (C order) on request -/
+def Landscaper.transform (self : Landscaper α) (X : List (Dgm α)) : Except Err (Out α) :=
+  match persLandscapeApprox X self.homDeg self.start self.stop self.numSteps with
   | .error e => .error e
   | .ok v =>
-    if self.flatten then
-      match v with
-      | .empty => .ok (.values .empty)
-      | .mat rows => .ok (.flat rows.flatten)
+    if self.flatten then .ok (.flat v.rows.flatten)
     else .ok (.values v)
 
 /-- `fit_transform(X) = fit(X).transform(X)` (sklearn `TransformerMixin`) -/
-def Landscaper.fitTransform (self : Landscaper α) (X : List (List (α × α))) : Except Err (Out α) :=
+def Landscaper.fitTransform (self : Landscaper α) (X : List (Dgm α)) : Except Err (Out α) :=
   match self.fit X with
   | .error e => .error e
   | .ok s => s.transform X
+
+/-- `max(dgm, key=itemgetter(1))[1]` over ALL points, `none = +∞` (the code before fix b209c93 did
+    not filter): `none` as soon as some death is infinite -/
+def maxDeathOpt (d : Dgm α) : Option (Option α) :=
+  match d with
+  | [] => none
+  | _ :: _ => some (if d.any (fun p => p.2.isNone) then none else maxDeath (finiteBars d))
+
+/-- the code BEFORE fix b209c93: `fit` took `stop` from all points of the diagram; a learnt
+    `stop = inf` makes `np.linspace` produce `nan` nodes and `dict_grid[...]` raise `KeyError(nan)` in
+    `transform` (modelled as `Err.keyError`).  Births are assumed finite. -/
+def Landscaper.fitTransformOld (self : Landscaper α) (X : List (Dgm α)) : Except Err (Out α) :=
+  match X[self.homDeg]? with
+  | none => .error .homDeg
+  | some d =>
+    match self.stop, maxDeathOpt d with
+    | none, some none => .error .keyError
+    | _, _ => self.fitTransform X
 
 /-! ### `death_vector` -/
 
